@@ -115,9 +115,10 @@ template <class D> long intTableSize() { return (long) OndriksMTBDD<typename D::
 
 // ---- crash isolation ---------------------------------------------------------------------------------------
 // A reference-counting error shows as a crash, a hang or heap corruption.  The cases are therefore run in a forked
-// worker; when the worker dies (or is silent for 20 s) the case it was working on gets the result line
+// worker; when the worker dies (or is silent for 3 s) the case it was working on gets the result line
 // "CRASH signal <n>" / "HANG" and a fresh worker continues with the next case, so one output line per case is
-// always produced and a broken library cannot stall the check.
+// always produced and a broken library cannot stall the check (after 40 deaths the remaining cases are answered
+// "CRASH skipped ..." without being run).
 template <class F> std::string guardedStr(F f) {
 	try { return f(); }
 	catch (const VATA::NotImplementedException& e) { return "EXC NotImplemented"; }
@@ -130,8 +131,12 @@ template <class F> std::string guardedStr(F f) {
 template <class H> int runIsolated(H handleLine) {
 	std::vector<std::string> lines; std::string line;
 	while (std::getline(std::cin, line)) lines.push_back(line);
-	size_t i = 0;
+	size_t i = 0, deaths = 0;
 	while (i < lines.size()) {
+		if (deaths >= 40) {	// the library is broken beyond doubt: do not spend the time budget on it
+			for (; i < lines.size(); ++i) std::cout << "CRASH skipped after 40 crashes or hangs in this run\n";
+			break;
+		}
 		int fd[2]; if (pipe(fd) != 0) return 3;
 		std::cout.flush(); fflush(stdout);
 		pid_t pid = fork();
@@ -151,7 +156,7 @@ template <class H> int runIsolated(H handleLine) {
 		std::string buf; size_t got = 0; bool hang = false; char tmp[65536];
 		for (;;) {
 			struct pollfd p; p.fd = fd[0]; p.events = POLLIN; p.revents = 0;
-			int r = poll(&p, 1, 20000);
+			int r = poll(&p, 1, 3000);
 			if (r == 0) { hang = true; kill(pid, SIGKILL); break; }
 			if (r < 0) break;
 			ssize_t n = read(fd[0], tmp, sizeof tmp);
@@ -164,10 +169,10 @@ template <class H> int runIsolated(H handleLine) {
 		int st = 0; waitpid(pid, &st, 0);
 		i += got;
 		if (i < lines.size()) {
-			if (hang) std::cout << "HANG no output for 20 s\n";
+			if (hang) std::cout << "HANG no output for 3 s\n";
 			else if (WIFSIGNALED(st)) std::cout << "CRASH signal " << WTERMSIG(st) << "\n";
 			else std::cout << "CRASH exit " << (WIFEXITED(st) ? WEXITSTATUS(st) : -1) << "\n";
-			++i;
+			++i; ++deaths;
 		}
 		std::cout.flush();
 	}
